@@ -5,6 +5,7 @@ import Rare.Drv.C01
 import Rare.Model.Lockset
 import Rare.Model.C05Status
 import Rare.Model.C05Logger
+import Rare.Model.C05SignalTrace
 namespace Rare.Drv.C05
 open Rare Rare.C01 Rare.Proto Rare.Pipeline
 
@@ -34,6 +35,21 @@ def aggTrace (cfg : PipelineTrace.Cfg) (evs : List TraceOrder.Ev) : String :=
   | .rejected deepest stuck exhausted =>
     let st := " ".intercalate (stuck.map fun p => s!"{p}:{Drv.C01.showEv (TraceOrder.evAt tr p)}")
     s!"rejected aggloop after={deepest}/{tr.size} exhaustive={exhausted} frontier={st}"
+
+/-- `strace <cfg> <summary> <trace>`: the loop's share of the log of a real run ended by SIGINT (or by the end of a
+    finite input) against the signal transition system; the stream is what main received. -/
+def sigTrace (evs : List TraceOrder.Ev) : String :=
+  let aevs := evs.filter fun e => AggLoopTrace.aggKinds.contains e.kind
+  let stream := AggLoopTrace.streamOf aevs
+  let tr := aevs.toArray
+  match TraceOrder.verdict AggLoopTrace.smachine AggLoopTrace.slin (AggLoopTrace.sinitSt stream) tr with
+  | .accepted s _ =>
+    let b := s.a.lts
+    let last := match b.renders.getLast? with | some r => r.length | none => 0
+    s!"ok accepted signalled={if s.signalled then 1 else 0} sampled={b.sampled.length} last={last}"
+  | .rejected deepest stuck exhausted =>
+    let st := " ".intercalate (stuck.map fun p => s!"{p}:{Drv.C01.showEv (TraceOrder.evAt tr p)}")
+    s!"rejected sigloop after={deepest}/{tr.size} exhaustive={exhausted} frontier={st}"
 
 open Rare.Gen.Access Rare.Lockset in
 /-- Static verdict of the lockset check on one regenerated table: `ok racefree`, or the first offending
@@ -142,6 +158,10 @@ def handle : List String → String
         | some cfg, some evs => aggTrace cfg evs
         | _, _ => "bad-args cfg/trace"
     | _ => "bad-args blob"
+  | "strace" :: _ :: _ :: trace :: _ =>
+    match Drv.C01.parseTrace trace with
+    | some evs => sigTrace evs
+    | none => "bad-args trace"
   | "lockset" :: name :: _ => locksetVerdict name
   | "stageclass" :: name :: _ => stageClassVerdict name
   | "status" :: setup :: body :: reps :: _ => statusAnswer setup body reps.toNat!
